@@ -39,6 +39,8 @@ def site_of(w):
 class Interval:
     """Unsigned interval analysis over terms, seeded with type ranges."""
 
+    LEN_BOUND = None      # optional hook: slice term -> maximal length (an invariant established elsewhere), or None
+
     def __init__(self, cons):
         self.cons = cons
 
@@ -67,6 +69,26 @@ class Interval:
     def shape(self, t, depth):
         k = t[0]
         if k in ("len",):
+            x = t[1]
+            if x[0] == "seq":
+                lo = hi = 0
+                for it in x[1]:
+                    if it[0] == "elem":
+                        lo, hi = lo + 1, hi + 1
+                    elif it[0] == "splice":
+                        r = self.of(("len", it[1]), depth + 1)
+                        if not r:
+                            return (0, (1 << 63) - 1)
+                        lo, hi = lo + r[0], hi + r[1]
+                    else:
+                        return (0, (1 << 63) - 1)
+                return (lo, hi)
+            if x[0] == "bytes":
+                return (len(x[1]), len(x[1]))
+            if Interval.LEN_BOUND is not None:
+                b = Interval.LEN_BOUND(x)
+                if b is not None:
+                    return (0, b)
             return (0, (1 << 63) - 1)
         if k in ("sym", "proj", "item", "unwrap"):
             ty = term_type(t)
@@ -75,6 +97,8 @@ class Interval:
                 # elements of byte slices
                 return (0, 255) if self.is_bytes(t[1]) else None
             if k == "proj" and t[2][0] == "deref":
+                if t[1][0] == "item" and t[1][1][0] == "iter" and t[1][1][1] in ("slice", "copied") and self.is_u8_seq(t[1][1][2]):
+                    return (0, 255)      # an element of a byte vector
                 return self.of(t[1], depth + 1) if False else (self.ty_range(ty) if ty else None)
             return self.ty_range(ty) if ty else None
         if k == "app":
@@ -125,7 +149,40 @@ class Interval:
                 return None
             if op.startswith("sum:"):
                 return None
+            if op == "fold" and len(t[2]) == 3:
+                init = t[2][1]       # a fold's result has the accumulator's type
+                ty = init[2] if init[0] == "int" else term_type(init)
+                return self.ty_range(ty) if ty else None
+            if op in ("Neg", "wrapping_add", "wrapping_sub", "wrapping_mul", "wrapping_neg") and t[2]:
+                x = t[2][0]
+                ty = x[2] if x[0] == "int" else term_type(x)
+                if ty is None:
+                    r = self.of(x, depth + 1)
+                    if r and 0 <= r[0] and r[1] <= 255:
+                        return (0, 255)      # wrapping arithmetic on a u8-ranged operand stays in u8
+                return self.ty_range(ty) if ty else None
         return None
+
+    def is_u8_seq(self, base):
+        while base[0] == "iter":
+            base = base[2]
+        if base[0] == "bytes":
+            return True
+        if (term_type(base) or "").replace(" ", "") in ("alloc::vec::Vec<u8>", "[u8]", "&[u8]"):
+            return True
+        if base[0] != "seq":
+            return False
+        for it in base[1]:
+            if it[0] == "elem":
+                r = self.of(it[1])
+                if not (r and 0 <= r[0] and r[1] <= 255):
+                    return False
+            elif it[0] == "splice":
+                if not (self.is_bytes(it[1]) or self.is_u8_seq(it[1])):
+                    return False
+            else:
+                return False
+        return True
 
     def is_bytes(self, base):
         s = fmt_term(base)
